@@ -360,3 +360,78 @@ silent('shape-for-testlist-alias', ['C14'], 'ForStmt.get_testlist through a loca
        (PYTREE, "        return self.children[3]\n", "        testlist = self.children[3]\n        return testlist\n"))
 
 VARIANTS = [v for v in VARIANTS if v is not None]
+
+# ---------------------------------------------------------------------------------------------------------
+# second batch: behaviour-preserving refactors (must stay silent)
+# ---------------------------------------------------------------------------------------------------------
+silent('s-leaf-getcode-format', ['C01', 'C19'], 'Leaf.get_code builds prefix+value with an f-string',
+       (TREE, "            return self.prefix + self.value\n        else:\n            return self.value", "            return f'{self.prefix}{self.value}'\n        else:\n            return self.value"))
+silent('s-leaf-getcode-early-return', ['C01', 'C19'], 'Leaf.get_code with inverted test',
+       (TREE, "        if include_prefix:\n            return self.prefix + self.value\n        else:\n            return self.value", "        if not include_prefix:\n            return self.value\n        return self.prefix + self.value"))
+silent('s-pop-inverted', ['C01', 'C05'], '_pop with inverted single-child test',
+       (PARSER, "        if len(tos.nodes) == 1:\n            new_node = tos.nodes[0]\n        else:\n            new_node = self.convert_node(tos.dfa.from_rule, tos.nodes)",
+        "        if len(tos.nodes) != 1:\n            new_node = self.convert_node(tos.dfa.from_rule, tos.nodes)\n        else:\n            new_node = tos.nodes[0]"))
+silent('s-add-token-rename', ['C01', 'C02', 'C05'], 'rename locals of _add_token',
+       (PARSER, "        leaf = self.convert_leaf(type_, value, prefix, start_pos)\n        stack[-1].nodes.append(leaf)", "        new_leaf = self.convert_leaf(type_, value, prefix, start_pos)\n        stack[-1].nodes.append(new_leaf)"))
+silent('s-stack-removal-del', ['C01'], '_stack_removal deletes with del instead of slice assignment',
+       (PYPARSER, "        self.stack[start_index:] = []", "        del self.stack[start_index:]"))
+silent('s-error-recovery-extract', ['C01', 'C02', 'C05', 'C07'], 'error_recovery: compute last_leaf with a conditional expression',
+       (PYPARSER, "        if tos_nodes:\n            last_leaf = tos_nodes[-1].get_last_leaf()\n        else:\n            last_leaf = None", "        last_leaf = tos_nodes[-1].get_last_leaf() if tos_nodes else None"))
+silent('s-recovery-tokenize-alias', ['C07'], '_recovery_tokenize without the local alias',
+       (PYPARSER, "                o = self._omit_dedent_list\n                if o and o[-1] == self._indent_counter:\n                    o.pop()", "                if self._omit_dedent_list and self._omit_dedent_list[-1] == self._indent_counter:\n                    self._omit_dedent_list.pop()"))
+silent('s-tokenize-endpos', ['C01', 'C09', 'C02'], 'epilogue computes end_pos inline',
+       (TOK, "    end_pos = lnum, max_\n", "    end_pos = (lnum, max_)\n"))
+silent('s-tokenize-indent-order', ['C09'], 'push on the indentation stack before yielding INDENT',
+       (TOK, "                        yield PythonToken(INDENT, '', spos, '')\n                        indents.append(indent_start)", "                        indents.append(indent_start)\n                        yield PythonToken(INDENT, '', spos, '')"))
+silent('s-tokenize-whitespace-class-order', ['C09', 'C10', 'C01'], 'character class written in another order',
+       (TOK, "    Whitespace = r'[ \\f\\t]*'", "    Whitespace = r'[\\t\\f ]*'"))
+silent('s-prefix-types-reorder', ['C09', 'C20'], 'reorder the entries of prefix._types',
+       (PREFIX, "    '#': 'comment',\n    '\\\\': 'backslash',", "    '\\\\': 'backslash',\n    '#': 'comment',"))
+silent('s-cache-load-rename', ['C16', 'C17'], 'rename the pickle path local in _load_from_file_system',
+       (CACHE, "        cache_path = _get_hashed_path(hashed_grammar, path, cache_path=cache_path)\n        if p_time > os.path.getmtime(cache_path):\n            # Cache is outdated\n            return None\n\n        with open(cache_path, 'rb') as f:",
+        "        pickle_path = _get_hashed_path(hashed_grammar, path, cache_path=cache_path)\n        if p_time > os.path.getmtime(pickle_path):\n            # Cache is outdated\n            return None\n\n        with open(pickle_path, 'rb') as f:"))
+silent('s-cache-freshness-flipped', ['C16'], 'freshness test written the other way round',
+       (CACHE, "        if p_time <= module_cache_item.change_time:", "        if module_cache_item.change_time >= p_time:"))
+silent('s-cache-handler-tuple', ['C17'], 'save handler lists more exception classes',
+       (CACHE, "        except (OSError, pickle.PicklingError, RecursionError):", "        except (OSError, pickle.PickleError, RecursionError, AttributeError):"))
+silent('s-cache-hashed-path-fspath', ['C16', 'C17'], 'path hashed through os.fspath (injective)',
+       (CACHE, "    file_hash = hashlib.sha256(str(path).encode(\"utf-8\")).hexdigest()", "    file_hash = hashlib.sha256(os.fspath(path).encode(\"utf-8\")).hexdigest()"))
+silent('s-errors-add-issue-kw', ['C13'], 'add_issue called with keyword arguments',
+       (ERRORS, '        self.add_issue(node, 901, "SyntaxError: " + message)', '        self.add_issue(node, code=901, message="SyntaxError: " + message)'))
+silent('s-errors-visit-leaf-split', ['C13', 'C12'], 'ErrorFinder.visit_leaf: message chosen through a helper local',
+       (ERRORS, "                if leaf.token_type == 'INDENT':\n                    message = 'unexpected indent'\n                else:\n                    message = 'unindent does not match any outer indentation level'",
+        "                message = 'unexpected indent' if leaf.token_type == 'INDENT' \\\n                    else 'unindent does not match any outer indentation level'"))
+silent('s-normalizer-visit-leaf-local', ['C12', 'C13', 'C19'], 'Normalizer.visit_leaf through a local list of rules',
+       (NORMALIZER, "        if leaf.type in ('keyword', 'operator'):\n            for rule in self._rule_value_instances.get(leaf.value, []):\n                rule.feed_node(leaf)",
+        "        if leaf.type in ('keyword', 'operator'):\n            value_rules = self._rule_value_instances.get(leaf.value, [])\n            for rule in value_rules:\n                rule.feed_node(leaf)"))
+silent('s-pep8-pop-guard-alias', ['C20'], 'guard of the comma pop through the local alias',
+       (PEP8, "        if value == ',' and part.parent.type == 'dictorsetmaker' \\\n                and self._indentation_tos.type == IndentationTypes.IMPLICIT:\n            self._indentation_tos = self._indentation_tos.parent\n\n        node = self._indentation_tos",
+        "        node = self._indentation_tos\n        if value == ',' and part.parent.type == 'dictorsetmaker' \\\n                and node.type == IndentationTypes.IMPLICIT:\n            self._indentation_tos = self._indentation_tos.parent\n\n        node = self._indentation_tos"))
+silent('s-tree-yield-scan-order', ['C14'], 'iter_yield_exprs tests value before type',
+       (PYTREE, "                    if element.type == 'keyword' and element.value == 'yield':", "                    if element.value == 'yield' and element.type == 'keyword':"))
+silent('s-tree-parent-loop-comprehension', ['C11', 'C19'], 'diff parser sets parents in a loop with another variable name',
+       (DIFF, "        for node in children:\n            node.parent = self.tree_node\n", "        for child_node in children:\n            child_node.parent = self.tree_node\n"))
+silent('s-gen-eq-reorder', ['C08'], 'DFAState.__eq__ compares arc counts first',
+       (GEN, "        if self.is_final != other.is_final:\n            return False\n        # Can't just return self.arcs == other.arcs, because that\n        # would invoke this method recursively, with cycles...\n        if len(self.arcs) != len(other.arcs):\n            return False",
+        "        if len(self.arcs) != len(other.arcs):\n            return False\n        if self.is_final != other.is_final:\n            return False"))
+silent('s-gen-first-plans-rename', ['C08'], 'rename a local of _calculate_first_plans',
+       (GEN, "    new_first_plans = {}\n    first_plans[nonterminal] = None  # dummy to detect left recursion", "    first_plans[nonterminal] = None  # dummy to detect left recursion\n    new_first_plans = {}"))
+silent('s-grammar-parse-local', ['C18', 'C16'], 'Grammar.parse names the parser object differently',
+       (GRAMMAR, "        p = self._parser(\n            self._pgen_grammar,\n            error_recovery=error_recovery,\n            start_nonterminal=start_symbol\n        )\n        root_node = p.parse(tokens=tokens)",
+        "        parser = self._parser(\n            self._pgen_grammar,\n            error_recovery=error_recovery,\n            start_nonterminal=start_symbol\n        )\n        root_node = parser.parse(tokens=tokens)"))
+silent('s-utils-cookie-equivalent', ['C15'], 'equivalent spelling of the declaration pattern',
+       (UTILS, 'br"[ \\t\\f]*#[^\\r\\n]*?coding[:=][ \\t]*([-\\w.]+)",', 'br"[ \\t\\f]*#[^\\r\\n]*?coding(?::|=)[\\t ]*([-\\w.]+)",'))
+silent('s-utils-split-compiled', ['C03', 'C15', 'C01'], 'line-break pattern with a group',
+       (UTILS, "        return re.split(r'\\n|\\r\\n|\\r', string)", "        return re.split(r'(?:\\r\\n|\\n|\\r)', string)"))
+
+# TOK-3 typestate
+fire('tok3-comment-drops-prefix', ['C01', 'C09'], ['TOK-3'], 'a comment inside brackets replaces the pending prefix instead of extending it',
+     (TOK, "                else:\n                    additional_prefix = prefix + token\n            elif token in triple_quoted:", "                else:\n                    additional_prefix = token\n            elif token in triple_quoted:"))
+fire('tok3-bom-overwrites', ['C01', 'C09'], ['TOK-3'], 'the BOM assignment can run when blank lines were already accumulated',
+     (TOK, "        if is_first_token:\n            if line.startswith(BOM_UTF8_STRING):", "        if new_line and not contstr and line in ('\\n', '\\r\\n'):\n            additional_prefix += line\n            continue\n        if is_first_token:\n            if line.startswith(BOM_UTF8_STRING):"))
+fire('tok3-double-emit', ['C01', 'C09'], ['TOK-3', 'TOK-1'], 'the NEWLINE token and the pending prefix both keep the same text',
+     (TOK, "                    yield PythonToken(NEWLINE, token, spos, prefix)\n                else:", "                    yield PythonToken(NEWLINE, token, spos, prefix)\n                    additional_prefix = prefix\n                else:"))
+silent('tok3-reset-order', ['C01', 'C09'], 'the reset of additional_prefix moves before the prefix computation through a temporary',
+       (TOK, "                prefix = additional_prefix + pseudomatch.group(1)\n                additional_prefix = ''", "                pending = additional_prefix\n                additional_prefix = ''\n                prefix = pending + pseudomatch.group(1)"))
+
+VARIANTS = [v for v in VARIANTS if v is not None]
